@@ -1,6 +1,7 @@
 package sym
 
 import (
+	"os"
 	"bufio"
 	"fmt"
 	"io"
@@ -36,6 +37,14 @@ type Solver struct {
 	lines   chan string
 	Restarts int
 	SetLogic string
+	DumpUnknown string
+
+	// Alt is a second, non-incremental solver process used when the incremental
+	// one gives up within QuickMs: z3's incremental core is much weaker on hard
+	// bit-vector arithmetic than its one-shot tactic.
+	Alt     *Solver
+	QuickMs int
+	AltUsed int
 }
 
 func NewSolver(bin string, timeoutMs int) (*Solver, error) {
@@ -90,7 +99,11 @@ func (s *Solver) start() error {
 
 func (s *Solver) preamble() {
 	if !strings.Contains(s.Bin, "cvc5") {
-		s.send(fmt.Sprintf("(set-option :timeout %d)", s.TimeoutMs))
+		to := s.TimeoutMs
+		if s.Alt != nil && s.QuickMs > 0 {
+			to = s.QuickMs
+		}
+		s.send(fmt.Sprintf("(set-option :timeout %d)", to))
 		s.send("(set-option :produce-models true)")
 	} else {
 		s.send("(set-logic QF_BV)")
@@ -98,6 +111,9 @@ func (s *Solver) preamble() {
 }
 
 func (s *Solver) Close() {
+	if s.Alt != nil {
+		s.Alt.Close()
+	}
 	if s.cmd != nil {
 		s.in.Close()
 		s.cmd.Process.Kill()
@@ -274,11 +290,21 @@ func (s *Solver) Check(extra []*Term, wantModel []*Term) (Result, map[string]uin
 	}
 	s.send("(check-sat)")
 	s.send(fmt.Sprintf("(echo \"%s\")", marker))
-	lines, okRead := s.readUntilMarker(marker, time.Duration(s.TimeoutMs)*time.Millisecond+5*time.Second)
+	limitMs := s.TimeoutMs
+	if s.Alt != nil && s.QuickMs > 0 {
+		limitMs = s.QuickMs
+	}
+	lines, okRead := s.readUntilMarker(marker, time.Duration(limitMs)*time.Millisecond+5*time.Second)
 	s.Queries++
 	if !okRead {
 		// the solver ignored its own timeout: kill it, restart, report unknown
 		s.restart()
+		if s.Alt != nil {
+			r, m := s.altCheck(extra, wantModel)
+			s.Time += time.Since(start)
+			s.count(r)
+			return r, m
+		}
 		s.Time += time.Since(start)
 		s.Unknown++
 		return Unknown, nil
@@ -296,6 +322,21 @@ func (s *Solver) Check(extra []*Term, wantModel []*Term) (Result, map[string]uin
 		case "unknown", "timeout":
 			res = Unknown
 		}
+	}
+	if res == Unknown && s.Alt != nil {
+		if !s.Fresh {
+			s.send("(pop 1)")
+		}
+		r, m := s.altCheck(extra, wantModel)
+		if r == Unknown && s.DumpUnknown != "" {
+			s.dumpQuery(extra)
+		}
+		s.Time += time.Since(start)
+		s.count(r)
+		return r, m
+	}
+	if res == Unknown && s.DumpUnknown != "" {
+		s.dumpQuery(extra)
 	}
 	var model map[string]uint64
 	if res == Sat && len(wantModel) > 0 {
@@ -323,6 +364,11 @@ func (s *Solver) Check(extra []*Term, wantModel []*Term) (Result, map[string]uin
 		s.send("(pop 1)")
 	}
 	s.Time += time.Since(start)
+	s.count(res)
+	return res, model
+}
+
+func (s *Solver) count(res Result) {
 	switch res {
 	case Sat:
 		s.Sat++
@@ -331,7 +377,33 @@ func (s *Solver) Check(extra []*Term, wantModel []*Term) (Result, map[string]uin
 	default:
 		s.Unknown++
 	}
-	return res, model
+}
+
+// altCheck re-decides the current query with the one-shot solver.
+func (s *Solver) altCheck(extra []*Term, wantModel []*Term) (Result, map[string]uint64) {
+	a := s.Alt
+	a.history, a.emitted, a.declared = s.history, s.emitted, s.declared
+	s.AltUsed++
+	q0 := a.Queries
+	r, m := a.Check(extra, wantModel)
+	_ = q0
+	// definitions made for extra terms were recorded in the shared history/maps
+	s.history, s.emitted, s.declared = a.history, a.emitted, a.declared
+	return r, m
+}
+
+// dumpQuery writes the current query as a self-contained SMT-LIB file (for offline triage).
+func (s *Solver) dumpQuery(extra []*Term) {
+	var sb strings.Builder
+	for _, h := range s.history {
+		sb.WriteString(h)
+		sb.WriteString("\n")
+	}
+	for _, e := range extra {
+		fmt.Fprintf(&sb, "(assert %s)\n", e.ref())
+	}
+	sb.WriteString("(check-sat)\n")
+	os.WriteFile(fmt.Sprintf("%s/unknown-%d-%d.smt2", s.DumpUnknown, os.Getpid(), s.seq), []byte(sb.String()), 0o644)
 }
 
 // parseModel parses "((name #x..) (name2 true) ...)".
